@@ -10,7 +10,7 @@ rsync -a --exclude=.git /repo/ $t/tree/
 mkdir -p $t/out; cp /verif/known_findings.json $t/out/
 bad=0
 for p in $props; do
-  out=$(GCV_REPO=$t/tree GCV_VERIF=$t/out GCV_VARIANT=1 /verif/bin/gcv -p $p 2>&1)
+  out=$(GCV_REPO=$t/tree GCV_VERIF=$t/out GCV_VARIANT=1 ${GCV_BIN:-/verif/bin/gcv} -p $p 2>&1)
   if echo "$out" | grep -q "^VIOLATION"; then
     bad=1; echo "ALARM $p on $(basename $(dirname $patch))/$(basename $patch):"; echo "$out" | grep -A1 "^VIOLATION" | grep "rule" | cut -c1-330 | head -4
   fi
